@@ -43,6 +43,8 @@
 #include <sys/mman.h>
 #include <sys/personality.h>
 #include <sys/resource.h>
+#include <sys/stat.h>
+#include <sys/sysmacros.h>
 #include <sys/wait.h>
 #include <unistd.h>
 
@@ -56,6 +58,8 @@ char* __real_getenv(const char*);
 int __real_ioctl(int, unsigned long, void*);
 int __real_poll(struct pollfd*, nfds_t, int);
 int __real_select(int, fd_set*, fd_set*, fd_set*, struct timeval*);
+int __real_fstat(int, struct stat*);
+int __real_fstat64(int, struct stat64*);
 // optional white-box probe (seam/probe.cpp, one function per field group), absent for tap and btcc
 size_t btcsim_probe_core(char* out, size_t cap) __attribute__((weak));
 size_t btcsim_probe_counters(char* out, size_t cap) __attribute__((weak));
@@ -142,6 +146,7 @@ struct World {
     std::vector<std::string> argv;
     std::map<std::string, std::string> env;
     bool tty_in = true, tty_out = true;
+    char kind_in = 'p', kind_out = 'p';       // what a non-terminal end is: p pipe, f regular file, c character device, s socket
     std::string stdin_bytes;
     std::vector<long> stdin_chunks;
     int stdin_end_errno = 0;
@@ -243,6 +248,19 @@ ssize_t in_read(void* c, char* buf, size_t n) {
     return (ssize_t)take;
 }
 InCookie g_in = {0, 0};
+int in_seek(void* c, off64_t* off, int whence) {
+    // a redirected regular file can be repositioned; a pipe, terminal or socket cannot
+    InCookie* ic = (InCookie*)c;
+    if (W.tty_in || W.kind_in != 'f') { errno = ESPIPE; return -1; }
+    off64_t base = whence == SEEK_SET ? 0 : whence == SEEK_CUR ? (off64_t)ic->pos : (off64_t)W.stdin_bytes.size();
+    off64_t np = base + *off;
+    if (np < 0) { errno = EINVAL; return -1; }
+    if ((size_t)np > W.stdin_bytes.size()) np = (off64_t)W.stdin_bytes.size();
+    ic->pos = (size_t)np;
+    *off = np;
+    emitf('S', "stdinseek %lld", (long long)np);
+    return 0;
+}
 
 struct FileCookie {
     FileSpec* f;
@@ -351,7 +369,7 @@ void terminate_handler() {
 
 void install_world_streams() {
     cookie_io_functions_t outf = {nullptr, out_write, nullptr, nullptr};
-    cookie_io_functions_t inf = {in_read, nullptr, nullptr, nullptr};
+    cookie_io_functions_t inf = {in_read, nullptr, in_seek, nullptr};
     FILE* so = fopencookie(&g_out, "w", outf);
     FILE* se = fopencookie(&g_err, "w", outf);
     FILE* si = fopencookie(&g_in, "r", inf);
@@ -427,7 +445,10 @@ bool parse_world() {
         case '.': return true;
         case 'a': W.argv.push_back(p); break;
         case 'e': { size_t eq = p.find('='); W.env[p.substr(0, eq)] = eq == std::string::npos ? "" : p.substr(eq + 1); break; }
-        case 't': W.tty_in = p.size() > 0 && p[0] == '1'; W.tty_out = p.size() > 1 && p[1] == '1'; break;
+        case 't': W.tty_in = p.size() > 0 && p[0] == '1'; W.tty_out = p.size() > 1 && p[1] == '1';
+                  if (p.size() > 2) W.kind_in = p[2];
+                  if (p.size() > 3) W.kind_out = p[3];
+                  break;
         case 'i': {
             size_t nl = p.find('\n');
             std::string head = p.substr(0, nl);
@@ -483,6 +504,20 @@ int child_run() {
 } // namespace
 
 // ===================================================================== seams
+template <typename ST> static int sim_fstat(int fd, ST* st) {
+    // fd 0..2 are the simulated ends: a terminal is a character device, anything else what the world says
+    bool tty = fd == 0 ? W.tty_in : fd == 1 ? W.tty_out : true;
+    char kind = tty ? 'c' : fd == 0 ? W.kind_in : W.kind_out;
+    memset(st, 0, sizeof *st);
+    st->st_mode = (kind == 'f' ? S_IFREG | 0644 : kind == 'c' ? S_IFCHR | 0620 : kind == 's' ? S_IFSOCK | 0777 : S_IFIFO | 0600);
+    st->st_nlink = 1;
+    st->st_blksize = kind == 'f' ? 4096 : 1024;
+    st->st_ino = 1000 + fd;
+    if (kind == 'f' && fd == 0) { st->st_size = (off_t)W.stdin_bytes.size(); st->st_blocks = (st->st_size + 511) / 512; }
+    if (kind == 'c') st->st_rdev = tty ? makedev(136, fd) : makedev(1, 3);
+    emitf('S', "fstat %d %c", fd, kind);
+    return 0;
+}
 extern "C" {
 
 // --- the TAB key: GNU readline would call the application's completion hook with the word under the cursor
@@ -660,6 +695,14 @@ int __wrap_select(int nfds, fd_set* r, fd_set* w, fd_set* e, struct timeval* tv)
     if (e) FD_ZERO(e);
     if (!want0 && ready == 0 && timeout > 0) g_now_ms += timeout;
     return ready;
+}
+int __wrap_fstat(int fd, struct stat* st) {
+    if (!g_in_child || fd < 0 || fd > 2) return __real_fstat(fd, st);
+    return sim_fstat(fd, st);
+}
+int __wrap_fstat64(int fd, struct stat64* st) {
+    if (!g_in_child || fd < 0 || fd > 2) return __real_fstat64(fd, st);
+    return sim_fstat(fd, st);
 }
 int __wrap_ioctl(int fd, unsigned long req, void* arg) {
     if (!g_in_child) return __real_ioctl(fd, req, arg);
